@@ -97,6 +97,12 @@ CLAIMED = {
         "PYTHONHASHSEED independence is differential testing over three seeds (runtime behaviour, not modelled).",
    technique="Rocq proof by induction over histories on a Gallina state model; correspondence by vm_compute on in-process histories; differential test for hash seeds",
    design_ref="DESIGN.md §6 C11, §8"),
+ "C07": dict(
+   text="Proof. Unbounded theorems: C07_check_sound / C07_check_complete / C07_check_exact (the usage check, modelled after the current tree, accepts exactly the designs with at most one driver per root, at most one user per variable/temporary and no written input port), "
+        "and C07_single_driver_sound (on the emitted VHDL: when the static single-driver rule holds, one delta cycle of the VHDL semantics is independent of the order of the concurrent statements - disjoint scalar sub-elements included). "
+        "Tie per run: generated placements of writers/readers through the real compiler vs the model (verdict and rejection reason compared in Coq) and vs the driver-count specification; single_driver evaluated in Coq on every accepted emitted design.",
+   technique="Rocq proof on a Gallina model of the usage check + verified static rule on the VHDL semantics; correspondence by vm_compute on generated placements",
+   design_ref="DESIGN.md §6 C07"),
 }
 ALL = ["C%02d" % i for i in range(1, 21)]
 
